@@ -239,12 +239,14 @@ type job struct {
 	Set                 optSet
 	Recurse             bool
 	Reps                int
-	Vars                []string // location variations to apply
-	Tree                bool     // sources laid out with a sub/ directory (treeProgram)
-	Dirty               []string // -out directories that already hold the output of ANOTHER compilation
-	RootPlus, RootMinus string   // root file text with declarations added / with the last declaration removed
-	AltPlus, AltMinus   string   // the same for AltSrc
-	Dir                 string   // private scratch directory of the job
+	Vars                []string  // location variations to apply
+	Tree                bool      // sources laid out with a sub/ directory (treeProgram)
+	Dirty               []string  // -out directories that already hold the output of ANOTHER compilation
+	RootPlus, RootMinus string    // root file text with declarations added / with the last declaration removed
+	AltPlus, AltMinus   string    // the same for AltSrc
+	Dir                 string    // private scratch directory of the job
+	NameTurn            int       // directory-name variations (dirnames.go): rotation index,
+	OutNames, SrcNames  []dirComp // names of the -out path / of the source root
 }
 
 // one observation of the compiler
@@ -835,9 +837,16 @@ func (c *c19) runJob(j *job) {
 				if d2 != nil {
 					reportND(fmt.Sprintf("two compilations in the same location (%q, same arguments) differ: %s %s", v, d2.Kind, d2.Rel), d2, keep)
 				} else {
-					what := fmt.Sprintf("compiling the same program with the same options differs when only %q varies (stable within each location): %s %s", v, d.Kind, d.Rel)
 					d.Other = o2
-					report("location-dependent", v, what, d, refKeep)
+					tails := []string{v}
+					if isDirNameVar(v) {
+						// which class of directory name is it?  one compilation per name
+						tails = c.attributeDirName(j, v, ref, rootFile)
+					}
+					for _, tl := range tails {
+						what := fmt.Sprintf("compiling the same program with the same options differs when only %q varies (stable within each location): %s %s", tl, d.Kind, d.Rel)
+						report("location-dependent", tl, what, d, refKeep)
+					}
 				}
 			}
 			os.RemoveAll(keep)
@@ -1033,6 +1042,18 @@ func (c *c19) runVariation(j *job, v, srcA, outA, rootFile string) (*obs, []stri
 			return nil, nil
 		}
 		return c.compile(j, src, rootFile, "out", filepath.Join(src, "out")), []string{filepath.Join(j.Dir, "L")}
+	case "out-dir-name":
+		// only the NAMES of the directories on the -out path vary (dirnames.go)
+		for _, n := range j.OutNames {
+			c.run.Add("dir_name_class:out:"+n.Class, 1)
+		}
+		return c.runDirName(j, v, j.OutNames, j.Dir, srcA, rootFile)
+	case "source-root-name":
+		// only the NAMES of the directories above the sources vary
+		for _, n := range j.SrcNames {
+			c.run.Add("dir_name_class:source-root:"+n.Class, 1)
+		}
+		return c.runDirName(j, v, j.SrcNames, j.Dir, srcA, rootFile)
 	case "dot-slash-file":
 		// ./file and ./out spelled with a leading dot and a trailing slash
 		return c.compile(j, srcA, "./"+rootFile, "./out/", outA), []string{outA}
@@ -1086,14 +1107,14 @@ func revisions(p *idl.Program, style idl.Style, src map[string]string) (plus, mi
 }
 
 // alwaysVars are applied to every key on top of the rotating ones.
-var alwaysVars = []string{"cwd-holds-decoy-includes", "cwd-subdir-of-idl-tree", "root-through-symlink", "out-absolute-same-place"}
+var alwaysVars = []string{"cwd-holds-decoy-includes", "cwd-subdir-of-idl-tree", "root-through-symlink", "out-absolute-same-place", "out-dir-name", "source-root-name"}
 
 var allVars = []string{"cwd+absolute-file", "source-root", "out-absolute-nested", "out-relative-nested+relative-file-depth", "out-pre-existing-identical", "dot-slash-file"}
 
 func runC19(tier string) int {
 	run := ev.New("C19", tier, "exploration")
 	run.Assume("dirty -out directories: only the files the observed compilation emits are compared; files left by the earlier compilation may remain")
-	run.Rule("random valid multi-file programs (idl.Generate, CoreConfig scaled to 6-10 files in an include DAG, 15-30 struct-likes per file, up to 4 services and 4 scopes per file) x targets x option sets x -r on/off; every (program,target,options,-r) key is compiled R times in one place (same cwd, same arguments, output removed in between) and once per location variation (cwd + absolute file, other source root and depth, absolute nested -out, relative nested -out with a relative file path, identical pre-existing -out, ./ spellings); oracle = equality of {path relative to -out -> sha256}; distinct = (target, option set, -r, output size bucket)")
+	run.Rule("random valid multi-file programs (idl.Generate, CoreConfig scaled to 6-10 files in an include DAG, 15-30 struct-likes per file, up to 4 services and 4 scopes per file) x targets x option sets x -r on/off; every (program,target,options,-r) key is compiled R times in one place (same cwd, same arguments, output removed in between) and once per location variation (cwd + absolute file, other source root and depth, absolute nested -out, relative nested -out with a relative file path, identical pre-existing -out, ./ spellings; and, for every key, directory NAMES on the -out path and above the sources drawn from 8 classes of legal names: percent signs and format verbs, blanks, dots, quotes, non-ASCII letters, shell-special characters, punctuation, backslashes); oracle = equality of {path relative to -out -> sha256}; distinct = (target, option set, -r, output size bucket)")
 	run.Assume("in-process sequences: compiler.Compile is called from a child of this binary, which is built against the compiler package of the tree under test; the reference for every call is the CLI in a fresh process")
 	run.Assume("sha256 equality of every emitted file is byte identity")
 	run.Assume("java generated_annotations=use is excluded: it is dated by design; use_vendor is not exercised (needs vendor annotations)")
@@ -1237,7 +1258,14 @@ func runC19(tier string) int {
 						dirty = []string{dirtyKinds[(i+ti+si)%len(dirtyKinds)]}
 					}
 				}
+				// directory names: three names of three consecutive classes for the -out
+				// path and three for the source root; the first class rotates with
+				// program, target, option set and seed (3 x 6 programs cover all 8
+				// classes for every target in the quick tier)
+				nrng := run.Rand(fmt.Sprintf("c19-dirnames-%d-%d-%d", i, ti, si))
+				turn := 3*i + ti + si + int(run.Seed%1000)
 				jobs = append(jobs, &job{P: i, Prog: p, Src: src, AltSrc: altSrc, Tgt: t, Set: s, Recurse: recurse, Reps: kreps, Vars: vars, Tree: tree,
+					NameTurn: turn, OutNames: dirNames(nrng, turn), SrcNames: dirNames(nrng, turn+4),
 					Dirty: dirty, RootPlus: rootPlus, RootMinus: rootMinus, AltPlus: altPlus, AltMinus: altMinus,
 					Dir: filepath.Join(base, fmt.Sprintf("p%d", i), fmt.Sprintf("j%d_%d", ti, si))})
 			}
